@@ -255,7 +255,7 @@ def like_pieces(line):
     return okf == "1", same == "1", bytes.fromhex(flat), ps
 
 
-def run(ck, pairs, tag, describe):
+def run(ck, pairs, tag, describe, num_queries=None):
     """pairs: list of (case record, base record) of harness sqlinject, both carrying 'tq' = {q, mode, key} (hex)."""
     if not ck.go_build("traceql"):
         ck.obligation("harness traceql (C11) builds against the repository", False, ck.build_out[-1500:])
@@ -290,7 +290,10 @@ def run(ck, pairs, tag, describe):
         ci = req(bytes.fromhex(tq["q"]), tq["mode"], bytes.fromhex(tq["key"]), ctxi)
         bi = req(bytes.fromhex(btq["q"]), btq["mode"], bytes.fromhex(btq["key"]), ctxi)
         plist.append((c, b, ci, bi))
-    nums = num_requests(int(ck.seed), int(ck.n(120, 4000)))
+    nums = num_requests(int(ck.seed), int(ck.n(120, 4000)) if num_queries is None else 0)
+    for site, q in num_queries or []:     # replay of a "number / duration as text" request
+        nums.append({"site": site, "q": q.encode("utf8", "surrogateescape"), "mode": next(m for n, _, m, _ in NUM_TEMPLATES if n == site),
+                     "key": b"k", "val": b"", "base": False})
     numbase = {}
     for r in nums:
         r["rid"] = req(r["q"], r["mode"], r["key"], 0)
@@ -434,10 +437,10 @@ def run(ck, pairs, tag, describe):
         elif noteq:
             q, c = qtext(noteq[0][1]), describe(noteq[0][0])
         else:
-            q, c = nbadnum[0]["q"].decode("utf8", "backslashreplace"), None
+            q, c = nbadnum[0]["q"].decode("utf8", "surrogateescape"), None
         ck.violation({"property": "C10", "kind": "TraceQL: the segmented text of the real tree fails the value-independent check pok, carries request bytes in a text "
                       "piece, or is not the marker's tree with other values (model/TqPieces.v): the statement structure is not guaranteed for this request",
-                      "traceql": q, "case": c})
+                      "traceql": q, "case": c, "traceql_num_site": nbadnum[0]["site"] if (nbadnum and c is None) else None})
     elif mism or untrans or nobase:
         i = mism[0] if mism else (list(untrans)[0] if untrans else None)
         ck.violation({"property": "C10", "kind": "flat(tq_pieces tree) differs from the real planner's SQL, or the tree is not translatable to model/TqSql.v",
